@@ -43,7 +43,7 @@ func genC07(rt *rapid.T, st *Stats) *Case {
 	ids := genIDs(rt, n, chance(rt, "adversarial_ids", 1, 8))
 	c := &Case{Edges: toEdges(ies, func(i int) string { return ids[i] })}
 	genOptions(rt, c, NodeIDs(c.Edges), OptSpec{CBs: detCB, Lays: allLay, Poss: posFor(n, len(ies), allPos), BKForced: true, Rts: allRt,
-		Thorough: true, Virt: true, Sizes: 0, NSZero: true, LSZero: true, DefaultsOK: true})
+		Thorough: true, ThoroughLow: true, Virt: true, Sizes: 0, NSZero: true, LSZero: true, DefaultsOK: true})
 	avoidK3(rt, c, st, false, []int{RtPolyline, RtStraight, RtOrtho, RtNoop})
 	return c
 }
